@@ -128,7 +128,7 @@ def fault_then_next_scripts(outdir):
     g = "G_mixed_fixed"
     hdr = {"a": "Cfg", "T": 3, "fixed": True, "group": g,
            "calls": {"a": {"path": "bcast", "kind": "normal", "ctl": "S1"}, "b": {"path": "udp", "kind": "setaddr", "ctl": "S2"}, "c": {"path": "tcp", "kind": "status", "ctl": "S3"}}}
-    for fault in ("refused", "reset", "silence", "blackhole"):
+    for fault in ("refused", "reset", "closed", "silence", "blackhole"):
         lines = [hdr, {"a": "Enter", "c": "c", "t": 0}, {"a": "Send", "c": "c", "t": 0, "plan": [[fault, 0]]},
                  {"a": "Enter", "c": "a", "t": 1}, {"a": "Enter", "c": "b", "t": 1},
                  {"a": "Send", "c": "a", "t": 1, "plan": [["valid", 1]]}, {"a": "Send", "c": "b", "t": 1, "plan": [["silence", 0]]}]
